@@ -159,6 +159,10 @@ pub fn array_value(a: ArrSpec) -> Vec<u8> {
         // many distinct short values (large value stores)
         return format!("n{:07}", a.cut).into_bytes();
     }
+    if a.base == 11 {
+        // an array of 2^24 + cut bytes: one byte more than a length field can say (cut = 0)
+        return (0..(1usize << 24) + a.cut as usize).map(|i| (i % 251) as u8).collect();
+    }
     let b = base_string(a.base);
     let mut v = b[..(a.cut as usize).min(b.len())].to_vec();
     match a.tweak % 8 {
